@@ -31,6 +31,7 @@ type ExecMode struct {
 	ArgFaults      bool     // failing / panicking input unmarshaler in arguments
 	Transports     []string // also run every k-th scenario over these real transports ("tp:sse", "tp:mixed", "tp:post") and validate the payloads parsed off the wire like the executor's
 	TransportEvery int
+	Rogue          bool // abstract positions may get a Go value that is no type of the schema (type resolution fails)
 	Sentinel       bool // a third of the planned resolver errors return ONE shared package-level *gqlerror.Error value
 	HTTP           bool // run through handler.Server + POST transport; allows marshal-time panics (Boom = "panic")
 	Mutations      bool // include mutation operations
@@ -129,7 +130,9 @@ func derivePlan(s *SchemaJ, base *ur.Result, r *rand.Rand, m ExecMode, intensity
 				fillElems(s, plan, ev.P, kinds[1:], basen, n, r, intensity)
 			case "ty":
 				poss := s.Types[gqlName(s, basen)].Possible
-				if len(poss) > 0 {
+				if rogueOn && r.Intn(4) == 0 {
+					plan[ev.P] = ur.Outcome{K: "obj", Ty: "Rogue"}
+				} else if len(poss) > 0 {
 					plan[ev.P] = ur.Outcome{K: "obj", Ty: poss[r.Intn(len(poss))]}
 				}
 			case "val":
@@ -218,6 +221,10 @@ func fillElems(s *SchemaJ, plan map[string]ur.Outcome, p, kinds, base string, n 
 		tn := gqlName(s, base)
 		if strings.HasSuffix(kinds, "I") {
 			poss := s.Types[tn].Possible
+			if rogueOn && r.Intn(6) == 0 {
+				plan[ep] = ur.Outcome{K: "obj", Ty: "Rogue"}
+				continue
+			}
 			if len(poss) > 0 && r.Intn(2) == 0 {
 				tn = poss[r.Intn(len(poss))]
 				plan[ep] = ur.Outcome{K: "obj", Ty: tn}
@@ -228,6 +235,9 @@ func fillElems(s *SchemaJ, plan map[string]ur.Outcome, p, kinds, base string, n 
 		plainFields(s, plan, ep, tn, r, intensity, 1)
 	}
 }
+
+// rogueOn: plans may put a value that is no type of the schema (probe type Rogue) at abstract positions.
+var rogueOn bool
 
 // boomPanics: plans may make the custom scalar Boom panic while being marshalled (HTTP mode only).
 var boomPanics bool
@@ -324,6 +334,7 @@ func ExecConformance(c *Check, prop string, bins map[string]string, vs []Variant
 		m.Lines = TraceLines
 	}
 	boomPanics = m.HTTP
+	rogueOn = m.Rogue
 	if m.PlansPer == 0 {
 		m.PlansPer = 4
 	}
